@@ -4,6 +4,7 @@ import VlsModel.Gen.KvvBytesFn
 import VlsModel.Gen.FnRedb
 import VlsModel.Lemmas.KVV
 import VlsModel.Lemmas.SmapSorted
+import VlsModel.Lemmas.KVVRedb
 /-
 C16 — the on-disk record format of the redb store, the pure part around the redb calls
 (`vls-persist/src/kvv/redb.rs`: `RedbKVVStore::encode_vv` / `decode_vv`), regenerated from the current source on
@@ -218,6 +219,52 @@ theorem C16_gen_redb_put (f : Key → String) (hf : ∀ a b, f a = f b → a = b
       all_goals (rename_i e; cases e <;> simp)
     · have hv' : ¬ v0 + 1 ≤ 18446744073709551615 := by omega
       simp [hv, hv', Rs.overflow, bind, Except.bind]
+
+/-- `new_store` on an existing file ("load the current versions"): the cache it builds from the committed table is the
+    model's `Redb.rebuild` (= the versions of the table), for any decoder that inverts the encoding on `u64` versions
+    (`C16_gen_decode_encode` for the generated `decode_vv`/`encode_vv`) -/
+theorem C16_gen_redb_load_versions (f : Key → String) (enc : Nat → List Nat → List Nat)
+    (dec : List Nat → Nat × List Nat) (hdec : ∀ v x, v ≤ U64MAX → (dec (enc v x)).1 = v)
+    (c : RedbKVVStore) (s : Redb) (h : SimR f enc c s) (hs : Rs.SSorted c.db) (k : Key) :
+    Rs.smapGet (RedbKVVStore.load_versions dec c.db) (f k) = lookup (Redb.rebuild s.tab) k := by
+  have hfold : RedbKVVStore.load_versions dec c.db
+      = c.db.foldl (fun m e => Rs.smapInsert m e.1 ((fun vv => (dec vv).1) e.2)) [] := by
+    unfold RedbKVVStore.load_versions
+    congr 1
+  rw [hfold, Rs.smapGet_insertAll_map_sorted (fun vv => (dec vv).1) c.db [] (f k) hs, h.tab k, lookup_rebuild]
+  cases ht : lookup s.tab k with
+  | none => simp [Rs.smapGet]
+  | some r =>
+    obtain ⟨v, x⟩ := r
+    simp [hdec v x (h.bound k (v, x) ht)]
+
+/-- reopening: a store handle built on the same committed table with the freshly loaded cache is related to the
+    model's `Redb.reopen` -/
+theorem C16_gen_redb_reopen (f : Key → String) (enc : Nat → List Nat → List Nat)
+    (dec : List Nat → Nat × List Nat) (hdec : ∀ v x, v ≤ U64MAX → (dec (enc v x)).1 = v)
+    (c : RedbKVVStore) (s : Redb) (h : SimR f enc c s) (hs : Rs.SSorted c.db) :
+    SimR f enc { c with versions := RedbKVVStore.load_versions dec c.db } (Redb.reopen s) :=
+  ⟨h.tab, fun k => C16_gen_redb_load_versions f enc dec hdec c s h hs k, h.bound⟩
+
+/-- the committed table of the code stays sorted by key (what `load_versions` iterates over) -/
+theorem C16_gen_redb_put_with_version_sorted (enc : Nat → List Nat → List Nat) (c c' : RedbKVVStore)
+    (key : String) (v : Nat) (x : Val) (hs : Rs.SSorted c.db)
+    (h : c.put_with_version enc key v x = .ok c') : Rs.SSorted c'.db := by
+  unfold RedbKVVStore.put_with_version at h
+  have hi := Rs.ssorted_insert key (enc v x) hs
+  split at h
+  · split at h
+    · simp [Rs.fail] at h
+    · split at h
+      · cases hg : Rs.smapGet c.db key with
+        | none => simp [hg, Rs.unwrap, Rs.panic, bind, Except.bind] at h
+        | some e =>
+          simp only [hg, Rs.unwrap, Rs.pure_eq, Rs.bind_ok] at h
+          split at h
+          · simp [Rs.fail] at h
+          · simp at h; subst h; exact hs
+      · simp at h; subst h; exact hi
+  · simp at h; subst h; exact hi
 
 /-! ### `put_batch` -/
 
